@@ -133,6 +133,27 @@ Print Assumptions sites_with_range_correct.
         boundary list: it never runs out of fuel, never indexes out of range, and returns the model's peptide list.
         The pinned-text config entries (construction of `sites` = bounds_of, closure update_peptides = Digest.update)
         are the trusted part; the C10 correspondence compares them on every run. ---- *)
+(* --- exactness of the digest as a TILING: the zero-missed-cleavage pieces over the boundary list
+   cleave uses (0, the sites, |s|) concatenate back to the protein - no residue is lost or reported
+   twice by the cutting itself; every longer product is a run of consecutive tiles (cleave_spec) --- *)
+From MoPep Require Import Proofs.DigestTileProofs.
+
+Theorem digest_pieces_tile_the_protein : forall r exc s,
+  bounds_of r exc s = 0%nat :: sites r exc s ++ [length s] /\
+  concat (map (fun ab => piece s (fst ab) (snd ab))
+              (combine (bounds_of r exc s) (tl (bounds_of r exc s)))) = s.
+Proof. exact bounds_tile. Qed.
+Print Assumptions digest_pieces_tile_the_protein.
+
+Theorem digest_pieces_conserve_length : forall r exc s,
+  list_sum (map (@length Z) (tiles s 0 (sites r exc s ++ [length s]))) = length s.
+Proof. exact tiles_length. Qed.
+Print Assumptions digest_pieces_conserve_length.
+
+Theorem sites_within_sequence : forall r exc s j, In j (sites r exc s) -> (j <= length s)%nat.
+Proof. exact sites_le_length. Qed.
+Print Assumptions sites_within_sequence.
+
 From MoPep Require Gen.Py_AminoAcidSeqRecord.
 From MoPep Require Import Model.PyRt Proofs.Py2CoqDigestProofs.
 
